@@ -131,7 +131,7 @@ def main():
                 if left < 5:
                     res.append((b, "skipped", None, None))
                     break
-                j, r = sched.explore(exe, hargs, bound=b, spur=spur, procs=procs, deadline=max(5, left - 3))
+                j, r = sched.explore(exe, hargs, bound=b, spur=spur, procs=procs, deadline=max(5, left - 3), unlock_points=(not cr.quick) or w * n <= 4)
                 res.append((b, "ok", j, r))
                 if j is None or j["violation"] is not None or j["capped"]:
                     break
@@ -189,7 +189,7 @@ def main():
                     if left < 20:
                         cr.cap("deadline before block-processor failure scenario %s" % sc)
                         break
-                    j, r = sched.explore(bexe, [wk, 3, sc], bound=-1 if wk < 3 else 2, deadline=max(10, left - 15))
+                    j, r = sched.explore(bexe, [wk, 3, sc], bound=-1 if wk < 3 else 2, deadline=max(10, left - 15), unlock_points=True)
                     if j is None:
                         raise RuntimeError("bp explorer failed: %s" % r.err[-400:])
                     for k in tot:
